@@ -64,6 +64,13 @@ static void prep(int id, const char *kind, const char *be)
     path_of(id, p);
     if (!strcmp(kind, "garbage")) { FILE *f = fopen(p, "wb"); int j; for (j = 0; j < 64; j++) fputc(33 + (j * 11) % 90, f); fclose(f); return; }
     if (!strcmp(kind, "dir")) { mkdir(p, 0777); return; }
+    if (!strcmp(kind, "empty")) { FILE *f = fopen(p, "wb"); if (f) fclose(f); return; }
+    if (!strcmp(kind, "h5plain")) {             /* a valid HDF5 file that is neither a CGNS nor a cgio (ADFH) file */
+        hid_t f = H5Fcreate(p, H5F_ACC_TRUNC, H5P_DEFAULT, H5P_DEFAULT), g;
+        if (f < 0) { printf("prepfail h5plain\n"); exit(3); }
+        g = H5Gcreate2(f, "Stuff", H5P_DEFAULT, H5P_DEFAULT, H5P_DEFAULT); if (g >= 0) H5Gclose(g);
+        H5Fclose(f); return;
+    }
     if (cgio_open_file(p, 'w', ft, &c)) { printf("prepfail open\n"); exit(3); }
     cgio_get_root_id(c, &root);
     if (!strcmp(kind, "badver")) {
@@ -114,8 +121,9 @@ int main(int argc, char **argv)
             printf("prep 0"); tail(0, 0);
         }
         else if (sscanf(line, "open %d %d %c", &h, &id, &m) == 3) {
-            char p[700]; int fn = -7;
+            static char p[2400]; int fn = -7;
             path_of(id, p);
+            if (id == 99) { size_t q = strlen(dir); memset(p + q + 1, 'L', 1500); strcpy(p + q + 1501, ".cgns"); }   /* name too long */
             ier = cg_open(p, m == 'w' ? CG_MODE_WRITE : m == 'm' ? CG_MODE_MODIFY : m == 'r' ? CG_MODE_READ : 77, &fn);
             if (!ier && h >= 0 && h < 64) { fns[h] = fn; isopen[h] = 1; }
             last_ier = ier; printf("open %d", ier); tail(1, ier ? 0 : fn);
